@@ -238,9 +238,9 @@ class Ctx:
         return self._once(('n', tu), build)
 
     def native_lib(self):
-        """every TU of the library (except the SQLite I/O unit), compiled natively with ASan+UBSan"""
+        """every TU of the library, compiled natively with ASan+UBSan (io.c is linked against the real libsqlite3)"""
         def build():
-            tus = [t for t in library_tus() if t != 'io']
+            tus = library_tus()
             with ThreadPoolExecutor(NCPU) as ex:
                 return list(ex.map(self.native_tu, tus))
         return self._once(('nlib',), build)
@@ -254,7 +254,7 @@ class Ctx:
         objs = self.native_lib()
         # harness/stub definitions come first and win over the library's (real functions the harness replaces)
         shim = os.path.join(HARNESS, 'stubs', 'native_pthread_shim.c')
-        rc, o, e, _ = sh(cc + NATIVE_RENAMES + srcs + objs + [shim, '-Wl,--allow-multiple-definition', '-o', exe, '-lm', '-llapack', '-lblas', '-lpthread'], timeout=300)
+        rc, o, e, _ = sh(cc + NATIVE_RENAMES + srcs + objs + [shim, '-Wl,--allow-multiple-definition', '-o', exe, '-lm', '-llapack', '-lblas', '-lpthread', '-lsqlite3'], timeout=300)
         if rc != 0: raise BuildError(f'native link {ob.id} failed:\n{(o+e)[-3000:]}')
         return exe
 
@@ -525,6 +525,8 @@ def run_property(prop, tier, obligations, meta, partial=False):
         try:
             with ThreadPoolExecutor(NCPU) as ex:
                 list(ex.map(lambda k: ctx.goto_tu(k[0], k[1]), need.keys()))
+            if sum(1 for ob in obligations if ob.engine == 'native') > 1:
+                ctx.native_lib()      # several native obligations: build the native objects once, before the workers fork
         except BuildError as x:
             build_err = str(x)
         global _CTX, _KFS
